@@ -31,7 +31,8 @@ for n in sorted(os.listdir(os.path.join(V, "seeded"))):
         shutil.rmtree(tmp, ignore_errors=True)
     sigs = [l.strip() for l in p.stdout.splitlines() if l.strip().startswith("signature=")]
     caught = p.returncode == 1 and "VIOLATION property=" in p.stdout
-    json.dump({"check": f"./check {prop} --tier quick", "mode": "scratch copy (VERIF_REPO)" if scratch_mode else "applied to /repo and undone", "exit": p.returncode, "caught": caught, "signatures": [s[:300] for s in sigs[:3]]},
+    json.dump({"check": f"./check {prop} --tier quick", "mode": "scratch copy (VERIF_REPO)" if scratch_mode else "applied to /repo and undone", "exit": p.returncode, "caught": caught, "signatures": [s[:300] for s in sigs[:3]],
+               **({} if caught else {"output_tail": (p.stdout + p.stderr)[-3000:]})},
               open(os.path.join(d, "result.json"), "w"), indent=1)
     print(f"{n:8s} {prop} exit={p.returncode} caught={caught} {sigs[:1]}"[:260], flush=True)
     ok = ok and caught
